@@ -33,7 +33,7 @@ def rotation_matrix(axis, angle_deg):
 
 def frame_of(mn):
     """mn: {'kind': 'default'} | {'kind': 'str', 'm': 'z', 'n': 'x'} | {'kind': 'vec', 'rot': [axis, angle]}
-    (m, n = first two columns... rows of the rotation applied to x, y).  Returns float arrays m, n, xi."""
+    ('vec': m, n are the images of x, y under the rotation).  Returns float arrays m, n, xi = m x n."""
     k = mn['kind']
     if k == 'default':
         m, n = np.array(AXES['x']), np.array(AXES['y'])
@@ -57,8 +57,8 @@ def point(m, n, xi, r, phi_deg, z):
 
 
 def fd_gradient(f, x, h):
-    """f: callable on an (N,3) array returning (N, ...) ; x: (3,) ; returns array (..., 3) of derivatives by the
-    4th-order central stencil (-f(+2h) + 8 f(+h) - 8 f(-h) + f(-2h)) / 12h, all 12 points in one call."""
+    """f: callable on an (N,3) array returning (N, ...) ; x: (3,).  Returns (G, max|f|): G[..., j] = d f[...] / d x_j by the
+    4th-order central stencil (-f(+2h) + 8 f(+h) - 8 f(-h) + f(-2h)) / 12h, all 12 points in one call of f."""
     x = np.asarray(x, dtype=float)
     pts = []
     for j in range(3):
@@ -66,12 +66,12 @@ def fd_gradient(f, x, h):
         e[j] = h
         pts += [x + 2 * e, x + e, x - e, x - 2 * e]
     pts = np.array(pts)
-    # the step actually taken (x+h) - (x-h) differs from 2h by rounding of x: use the representable offsets
     v = np.asarray(f(pts))
     out = []
     umax = float(np.abs(v).max())
     for j in range(3):
         a, b, c, d = v[4 * j], v[4 * j + 1], v[4 * j + 2], v[4 * j + 3]
+        # the step actually taken, (x+h) - (x-h), differs from 2h by the rounding of x + h: divide by what was taken
         hj = ((pts[4 * j + 1, j] - pts[4 * j + 2, j]) / 2.0)
         out.append((-a + 8 * b - 8 * c + d) / (12.0 * hj))
     return np.stack(out, axis=-1), umax
